@@ -31,7 +31,7 @@ from pyramid.events import NewRequest, BeforeTraversal, ContextFound, NewRespons
 from pyramid.httpexceptions import HTTPBadRequest, HTTPException
 from pyramid.request import Request
 from pyramid.response import Response
-from pyramid.threadlocal import manager, get_current_request
+from pyramid.threadlocal import manager, get_current_request, get_current_registry
 from pyramid.tweens import EXCVIEW
 from pyramid.security import Allowed, Denied
 
@@ -105,6 +105,11 @@ def throw(kind):
     raise HTTPBadRequest('injected')
 
 
+def cur_ok(request):
+    """the top of the thread-local stack IS this request and its registry (identity, not depth)"""
+    return get_current_request() is request and get_current_registry() is getattr(request, 'registry', None)
+
+
 class ReqState:
     """per-request observation record, carried in environ['c13']"""
 
@@ -112,6 +117,7 @@ class ReqState:
         self.spec, self.base = spec, base
         self.own, self.kids = [], []
         self.out, self.depth_after = None, None
+        self.xv = False    # the application serving this request has the custom exception view
         self.sk = []       # [kind, site id, depth, raised] of the events the skeleton comparison looks at
 
     def rel(self):
@@ -119,7 +125,7 @@ class ReqState:
 
     def hook(self, request, point):
         """returns True when the hook must answer `no` (soft), raises when the schedule says so"""
-        self.own.append(['hook', point, get_current_request() is request, self.rel()])
+        self.own.append(['hook', point, cur_ok(request), self.rel()])
         if point in ('newResponse', 'excView'):
             self.sk.append(['new' if point == 'newResponse' else 'excView', site_here(), self.rel(), fault_of(self.spec, point) is not None])
         for i, (stage, kind, _f) in enumerate(self.spec.get('regs', [])):
@@ -138,7 +144,7 @@ class ReqState:
 
     def make_resp_cb(self, i):
         def cb(request, response):
-            self.own.append(['cb', 'resp', i, get_current_request() is request, self.rel()])
+            self.own.append(['cb', 'resp', i, cur_ok(request), self.rel()])
             f = self.spec['regs'][i][2]
             self.sk.append(['resp', site_here(), self.rel(), f is not None])
             if f is not None:
@@ -147,7 +153,7 @@ class ReqState:
 
     def make_fin_cb(self, i):
         def cb(request):
-            self.own.append(['cb', 'fin', i, get_current_request() is request, self.rel()])
+            self.own.append(['cb', 'fin', i, cur_ok(request), self.rel()])
             f = self.spec['regs'][i][2]
             self.sk.append(['fin', site_here(), self.rel(), f is not None])
             if f is not None:
@@ -194,6 +200,9 @@ def probe_tween_factory(handler, registry):
 def tween_over_factory(handler, registry):
     def tween_over(request):
         st_of(request).hook(request, 'tweenOverIn')
+        txo = request.environ.get('c13.tween_xo')
+        if txo is not None:
+            scope_explicit(request, st_of(request), txo[0], txo[1], txo[2])
         r = handler(request)
         st_of(request).hook(request, 'tweenOverOut')
         return r
@@ -300,11 +309,12 @@ def the_view(request):
             try:
                 request.invoke_exception_view(sys.exc_info())
             finally:
-                st.own.append(['resume', get_current_request() is request, st.rel()])
+                st.own.append(['resume', cur_ok(request), st.rel()])
     for i, child in enumerate(st.spec.get('subs', [])):
         st.own.append(['sub', i])
         sub = Request.blank('/r' if child.get('route') else '/')
         kid = ReqState(child, st.base)
+        kid.xv = st.xv
         st.kids.append(kid)
         sub.environ['c13'] = kid
         try:
@@ -316,8 +326,43 @@ def the_view(request):
                 raise
         finally:
             kid.depth_after = st.rel()
-            st.own.append(['resume', get_current_request() is request, st.rel()])
+            st.own.append(['resume', cur_ok(request), st.rel()])
+    xo = st.spec.get('xo')
+    if xo is not None:
+        explicit_other(request, st, xo)
     return {}
+
+
+def other_request(request, st, other_registry):
+    """another request for invoke_exception_view(request=…): same registry, or the registry of the other application"""
+    tgt = Request.blank('/other')
+    tgt.registry = make_app(not st.xv).registry if other_registry else request.registry
+    return tgt
+
+
+def explicit_other(request, st, xo):
+    """request.invoke_exception_view(exc_info, request=other) from code serving `request`; the exception view's
+    observations go to `other`'s own record (a kid of `st`)"""
+    kind, fault, other_registry = xo
+    st.own.append(['sub', 1000])
+    tgt = other_request(request, st, other_registry)
+    kid = ReqState({'faults': [['excView', fault]] if fault else [], 'regs': []}, st.base)
+    kid.xv = (not st.xv) if other_registry else st.xv
+    st.kids.append(kid)
+    tgt.environ['c13'] = kid
+    try:
+        try:
+            throw(eff_kind('xx', kind))
+        except Exception:
+            try:
+                request.invoke_exception_view(sys.exc_info(), request=tgt)
+                kid.out = 'resp'
+            except Exception as e:
+                kid.out = classify_exc(e)
+                raise
+    finally:
+        kid.depth_after = st.rel()
+        st.own.append(['resume', cur_ok(request), st.rel()])
 
 
 def exc_view(exc, request):
@@ -396,6 +441,7 @@ def run_pipeline(case):
     base = len(manager.stack)
     spec = case['req']
     st = ReqState(spec, base)
+    st.xv = bool(case.get('xv'))
     environ = Request.blank('/r' if spec.get('route') else '/').environ
     environ['c13'] = st
     status = []
@@ -474,6 +520,13 @@ def check_node(spec, node, depth_before, where='top'):
     for i, kid in enumerate(node['kids']):
         if i < len(subs):
             bad += check_node(subs[i], kid, d_view, '%s.sub%d' % (where, i))
+        else:
+            # the request handed to invoke_exception_view(request=…): it must be the current one in its exception view
+            if kid['depth'] != d_view:
+                bad.append('%s.other: stack depth %s after invoke_exception_view(request=other), %s before' % (where, kid['depth'], d_view))
+            for e in kid['own']:
+                if e[0] == 'hook' and e[1] == 'excView' and not e[2]:
+                    bad.append('%s.other: inside the exception view the current request/registry is not the request being rendered' % where)
     return bad
 
 
@@ -489,6 +542,10 @@ def pipeline_wf(case):
                 return False
         if r.get('xx') is not None and r.get('xx') not in KINDS:
             return False
+        xo = r.get('xo')
+        if xo is not None and not (isinstance(xo, list) and len(xo) == 3 and xo[0] in KINDS and (xo[1] is None or xo[1] in KINDS)
+                                   and isinstance(xo[2], bool)):
+            return False
         if not isinstance(r.get('subs', []), list):
             return False
         return all(req_ok(s, False) for s in r.get('subs', []))
@@ -501,7 +558,7 @@ def pipeline_wf(case):
 def norm_req(r, top=True):
     return {'tw': True if top else bool(r.get('tw')), 'route': bool(r.get('route')),
             'faults': [list(f) for f in r.get('faults', [])], 'regs': [list(g) for g in r.get('regs', [])],
-            'xx': r.get('xx'), 'subs': [norm_req(s, False) for s in r.get('subs', [])]}
+            'xx': r.get('xx'), 'xo': r.get('xo'), 'subs': [norm_req(s, False) for s in r.get('subs', [])]}
 
 
 def model_line(case):
@@ -523,6 +580,7 @@ def gen_req(rng, depth, top=False):
                      None if rng.random() < 0.8 else rng.choice(['plain', 'http'])])
     r['regs'] = regs
     r['xx'] = None if rng.random() < 0.75 else rng.choice(['plain', 'http'])
+    r['xo'] = None if rng.random() < 0.8 else [rng.choice(['plain', 'http']), rng.choice([None, None, 'plain', 'http']), rng.random() < 0.3]
     subs = []
     if depth > 0:
         for _ in range(rng.choice([0, 0, 1, 1, 2])):
@@ -612,7 +670,37 @@ SCOPES = {
     'with_prepare': ('with_prepare', {'body': 'user|with prepare body|1'}, ['mkreq', 'ext', 'root', 'body', 'fin0', 'fin1']),
     'get_root_closer': ('get_root_then_closer', {'body': 'user|get_root then closer body|1'}, ['mkreq', 'root', 'body']),
     'explicit_excview': ('invoke_exception_view', {}, ['excView']),
+    # invoke_exception_view(exc_info, request=<same | a fresh request | a request of another registry>) called from a
+    # scripting scope / from a tween over the excview tween / with no request current: identity at the top of the stack
+    'xother_prepare': (None, {}, ['excView']),
+    'xother_tween': (None, {}, ['excView']),
+    'xother_bare': (None, {}, ['excView']),
 }
+XTARGETS = ('same', 'fresh', 'otherreg')
+
+
+def scope_explicit(request, st, target, fail, ident):
+    """`request.invoke_exception_view(exc_info, request=<target>)` from code that serves `request`; appends to `ident`
+    one [is the rendered request current?, depth, site] per exception-view run"""
+    if target == 'same':
+        tgt, rec = request, st
+    else:
+        tgt = other_request(request, st, target == 'otherreg')
+        rec = ReqState({'faults': [['excView', 'plain']] if fail else [], 'regs': []}, st.base)
+        tgt.environ['c13'] = rec
+    if target == 'same' and fail:
+        rec.spec = dict(rec.spec, faults=list(rec.spec.get('faults', [])) + [['excView', 'plain']])
+    n0, k0 = len(rec.own), len(rec.sk)
+    try:
+        try:
+            raise Boom('to be viewed')
+        except Boom:
+            request.invoke_exception_view(sys.exc_info(), request=tgt)
+    finally:
+        hooks = [e for e in rec.own[n0:] if e[0] == 'hook' and e[1] == 'excView']
+        sks = [k for k in rec.sk[k0:] if k[0] == 'excView']
+        for e, k in zip(hooks, sks):
+            ident.append([e[2], e[3], k[1]])
 
 
 def run_scope(case):
@@ -620,6 +708,7 @@ def run_scope(case):
     sc = case['scenario']
     probe = Probe(case.get('fail', []))
     _PROBE[0] = probe
+    ident = []
     ncb = int(case.get('ncb', 0))
     del manager.stack[:]
     for _ in range(int(case.get('base', 0))):
@@ -704,6 +793,29 @@ def run_scope(case):
                         for k in st.sk:
                             if k[0] == 'excView':
                                 probe.visits.append(['excView', k[2], 'excView' in probe.fail, k[1]])
+            elif sc in ('xother_prepare', 'xother_tween', 'xother_bare'):
+                target, fail = case.get('target', 'fresh'), 'excView' in probe.fail
+                has_xv = target != 'otherreg'      # so that the OTHER registry is the one with the exception view
+                app = make_app(has_xv)
+                if sc == 'xother_tween':
+                    st = ReqState({'faults': [], 'regs': []}, base)
+                    st.xv = has_xv
+                    environ = Request.blank('/').environ
+                    environ['c13'] = st
+                    environ['c13.tween_xo'] = (target, fail, ident)
+                    list(app(environ, lambda s, h, e=None: None))
+                else:
+                    req = Request.blank('/')
+                    req.registry = app.registry
+                    st = ReqState({'faults': [], 'regs': []}, base)
+                    st.xv = has_xv
+                    req.environ['c13'] = st
+                    if sc == 'xother_prepare':
+                        from pyramid.scripting import prepare
+                        with prepare(request=req, registry=app.registry):
+                            scope_explicit(req, st, target, fail, ident)
+                    else:
+                        scope_explicit(req, st, target, fail, ident)
             else:
                 raise ValueError('unknown scenario %r' % sc)
         except Exception:
@@ -712,7 +824,7 @@ def run_scope(case):
         after = len(manager.stack)
         del manager.stack[:]
         _PROBE[0] = None
-    return {'visits': probe.visits, 'raised': raised, 'before': base, 'after': after}
+    return {'visits': probe.visits, 'raised': raised, 'before': base, 'after': after, 'ident': ident}
 
 
 def scope_wf(case):
@@ -720,7 +832,8 @@ def scope_wf(case):
         sc = case['scenario']
         return (sc in SCOPES and isinstance(case.get('fail', []), list) and all(f in SCOPES[sc][2] for f in case.get('fail', []))
                 and isinstance(case.get('base', 0), int) and 0 <= case.get('base', 0) <= 3
-                and isinstance(case.get('ncb', 0), int) and 0 <= case.get('ncb', 0) <= 2)
+                and isinstance(case.get('ncb', 0), int) and 0 <= case.get('ncb', 0) <= 2
+                and case.get('target', 'fresh') in XTARGETS)
     except Exception:
         return False
 
@@ -872,7 +985,11 @@ def exec_compare(mo, visits, hooked, want_raised, want_depth):
 
 
 def scope_check(case, obs):
-    """the property on a scope: the stack is back at its previous depth when the scope ends, however it ends"""
+    """the property on a scope: the stack is back at its previous depth when the scope ends, however it ends; inside an
+    exception view invoked explicitly the current request is the request being rendered"""
+    if any(not i[0] for i in obs.get('ident', [])):
+        return {'case': case, 'impl': obs, 'expected': {'ident': 'all true'},
+                'detail': 'scope %s: inside the exception view the current request/registry is not the request handed to invoke_exception_view' % case['scenario']}
     if obs['after'] != obs['before']:
         return {'case': case, 'impl': obs, 'expected': {'after': obs['before']},
                 'detail': 'scope %s leaves the thread-local stack at depth %d, it was %d' % (case['scenario'], obs['after'], obs['before'])}
@@ -891,7 +1008,12 @@ def all_scope_cases():
                     out.append({'kind': 'scope', 'scenario': sc, 'fail': [l], 'base': base, 'ncb': ncb})
             for a, b in itertools.combinations(usable, 2):
                 out.append({'kind': 'scope', 'scenario': sc, 'fail': [a, b], 'base': 1, 'ncb': ncb})
-    return out
+    extra = []
+    for c in out:
+        if c['scenario'].startswith('xother_'):
+            for tg in XTARGETS:
+                extra.append(dict(c, target=tg))
+    return [c for c in out if not c['scenario'].startswith('xother_')] + extra
 
 
 # ---- every request of a pipeline run against the skeleton of Router.__call__ / invoke_subrequest --------------
@@ -962,6 +1084,15 @@ def single_fault_cases():
                 regs = [['newRequest', which, None], ['viewBody', which, kind], ['renderer', which, None]]
                 out.append({'kind': 'pipeline', 'xv': xv, 'base': 1,
                             'req': {'tw': True, 'route': False, 'faults': [], 'regs': regs, 'xx': None, 'subs': []}})
+            for fault in (None, 'plain'):
+                for other_reg in (False, True):
+                    out.append({'kind': 'pipeline', 'xv': xv, 'base': 1,
+                                'req': {'tw': True, 'route': False, 'faults': [], 'regs': [list(r) for r in STD_REGS], 'xx': None,
+                                        'xo': [kind, fault, other_reg], 'subs': []}})
+                    out.append({'kind': 'pipeline', 'xv': xv, 'base': 0,
+                                'req': {'tw': True, 'route': False, 'faults': [], 'regs': [], 'xx': None, 'xo': None,
+                                        'subs': [{'tw': True, 'route': False, 'faults': [], 'regs': [], 'xx': None,
+                                                  'xo': [kind, fault, other_reg], 'subs': []}]}})
             for f in ([], [['excView', 'plain']], [['renderer', 'plain']]):
                 out.append({'kind': 'pipeline', 'xv': xv, 'base': 0,
                             'req': {'tw': True, 'route': True, 'faults': f, 'regs': [list(r) for r in STD_REGS], 'xx': kind, 'subs': []}})
@@ -1018,7 +1149,7 @@ def ensure_baselines(sites, scenarios, pipeline):
     """one run without failures per scenario, so that every hook of the scenario is known as an instrumented site
     even when a single case is replayed"""
     for sc in scenarios:
-        if ('base', sc) in _HOOKED:
+        if ('base', sc) in _HOOKED or SCOPES[sc][0] is None:
             continue
         _HOOKED[('base', sc)] = True
         c = {'kind': 'scope', 'scenario': sc, 'fail': [], 'base': 0, 'ncb': 2 if sc in ('prepare_closer', 'with_prepare') else 0}
@@ -1079,6 +1210,8 @@ def eval_cases(ctx, cases, use_model=True):
                 continue
             try:
                 if c.get('kind') == 'scope':
+                    if SCOPES[c['scenario']][0] is None:
+                        continue
                     v = scope_visits(c, o, sites)
                     _note_hooked(c['scenario'], v)
                     jobs.append((i, SCOPES[c['scenario']][0], c['scenario'], o['before'], v, o['raised'], o['after'], o))
